@@ -1,5 +1,6 @@
 package main
 
-// extra emits the later sections (lock programs, panic-site inventory, regex literal);
-// filled in as the properties that need them are built.
-func extra(p, sp *pkg) {}
+// extras: further Gen.v sections (lock programs, panic-site inventory, regex literal ...).
+// Each engine adds a file extra_<engine>.go whose init() appends to this slice; sections are
+// emitted in file-name order (Go runs init() of a package's files in that order).
+var extras []func(p, sp *pkg)
